@@ -893,6 +893,7 @@ def run_px(h, name, fn, cap=30, order=('core', 'nlsat'), feas_ms=300, max_paths=
         t1 = time.time()
         worst = 'discharged'
         reach = False
+        twin_unknown = False
         solver_used = set()
         for g in gs:
             atom = g['atom']
@@ -910,9 +911,10 @@ def run_px(h, name, fn, cap=30, order=('core', 'nlsat'), feas_ms=300, max_paths=
                     # vacuity twin for this goal: is the site reachable with the hypothesis true on some path?
                     tw = pc + ([atom.when] if isz(atom.when) else [])
                     if not (isinstance(atom.when, bool) and not atom.when):
-                        st2, _, _, dt2, _ = sym.solve(tw, 10, order=('nlsat', 'core'))
+                        st2, _, _, dt2, _ = sym.solve(tw, 20, order=('nlsat', 'core'))
                         rec['attempts'].append(('vacuity_path%d' % g['path'], st2, round(dt2, 3)))
                         reach = reach or st2 == 'sat'
+                        twin_unknown = twin_unknown or st2 == 'unknown'
                 continue
             if st == 'unknown':
                 worst = 'inconclusive'
@@ -948,8 +950,8 @@ def run_px(h, name, fn, cap=30, order=('core', 'nlsat'), feas_ms=300, max_paths=
             worst = rr['status']
             break
         rec['status'] = worst
-        rec['nonvacuous'] = reach if worst == 'discharged' else None
-        if worst == 'discharged' and not reach:
+        rec['nonvacuous'] = (True if reach else (None if twin_unknown else False)) if worst == 'discharged' else None
+        if worst == 'discharged' and not reach and not twin_unknown:
             rec['status'] = 'vacuous'
             rec['detail'] = 'goal site never reachable with its hypothesis true'
         rec['solver'] = ','.join(sorted(s for s in solver_used if s))
